@@ -109,7 +109,10 @@ func (t *SimTransport) NewMessage(ctx context.Context) (rpccp.Message, func() er
 		if err := ctx.Err(); err != nil {
 			return err
 		}
-		simrt.YieldAt("transport-send")
+		// a write takes a while: the sender lock stays held over 1-4 schedule points
+		for i := 1 + t.s.Choice("send-duration", 4); i > 0; i-- {
+			simrt.YieldAt("transport-send")
+		}
 		data, err := msg.Marshal()
 		if err != nil {
 			return err
